@@ -207,10 +207,10 @@ class ED:
 
 
 class ES:
-    """eager sparse row: dict, optional label (key, tipe)"""
+    """eager sparse row: dict, optional label (key, tipe), the header map raw key -> name the table is keyed by ({} = raw keys)"""
 
-    def __init__(self, d, lab=None):
-        self.d, self.lab = dict(d), lab
+    def __init__(self, d, lab=None, inv=None):
+        self.d, self.lab, self.inv = dict(d), lab, dict(inv or {})
 
 
 class HarnessBug(Exception):
@@ -268,7 +268,7 @@ def eager_base(case, raw):
         for k in nsp:
             if k not in d:
                 out[names[k]] = lazy_enc_apply(encs[k], "0")
-        return ES(out)
+        return ES(out, None, names)
     if base["wrap"] == "lazy":
         encs = dict((k, e) for k, e in (base.get("enc") or []))
         names = base.get("hdr")
@@ -276,7 +276,7 @@ def eager_base(case, raw):
         out = {}
         for k, v in d.items():
             out[inv.get(k, k)] = lazy_enc_apply(encs[k], v) if k in encs else v
-        return ES(out)
+        return ES(out, None, inv)
     return ES(d)
 
 
@@ -385,7 +385,7 @@ def eager_stage(kind, e, st):
                 if e.lab[0] not in inv:
                     raise Undefined("label without a header")
                 lab = (inv[e.lab[0]], e.lab[1])
-            return ES(out, lab)
+            return ES(out, lab, inv)
         if op == "encode":
             if "seq" in st:
                 m = {i: en for i, en in enumerate(st["seq"])}
@@ -397,7 +397,7 @@ def eager_stage(kind, e, st):
             for k, en in m.items():
                 if k not in out and enc_zero_nonzero(en):
                     out[k] = enc_apply(en, "0")
-            return ES(out, e.lab)
+            return ES(out, e.lab, e.inv)
         if op == "drop":
             if not pred_keep(kind, e, st.get("pred")):
                 return None
@@ -406,13 +406,15 @@ def eager_stage(kind, e, st):
                 return e
             if e.lab is not None and e.lab[0] in cols:
                 raise Undefined("label column dropped")
-            return ES({k: v for k, v in e.d.items() if k not in cols}, e.lab)
+            return ES({k: v for k, v in e.d.items() if k not in cols}, e.lab, e.inv)
         if op == "label":
             k = st["k"]
+            if not isinstance(k, str):
+                k = e.inv.get(k, k)      # a table keyed by header names: an int label denotes the column with that raw key
             d = dict(e.d)
             if k not in d:
                 d[k] = 0
-            return ES(d, (k, st.get("t")))
+            return ES(d, (k, st.get("t")), e.inv)
         if op == "enccat":
             t = st.get("t")
             if t is None:
@@ -439,7 +441,7 @@ def eager_stage(kind, e, st):
                 else:
                     out[k] = v
             out.update(tail)
-            return ES(out, None)
+            return ES(out, None, {})
     raise ValueError("stage %r" % (st,))
 
 
@@ -1122,7 +1124,7 @@ class C13(Property):
         ext = [hdr_names[j] if hdr_names is not None else keys[j] for j in range(ncols)]
         return base, rows, ext, ctypes, None
 
-    def gen_stages(self, rng, kind, names, ctypes, ncols, wf, lazy_has_missing):
+    def gen_stages(self, rng, kind, names, ctypes, ncols, wf, lazy_has_missing, raw_keys=None):
         """names: current external column names (dense: list or None; sparse: list of keys); ctypes per current column"""
         stages = []
         n = rng.wchoice([(1, 0), (4, 1), (4, 2), (3, 3), (2, 4), (1, 5)])
@@ -1130,6 +1132,7 @@ class C13(Property):
         catted = False
         cur_names = list(names) if names is not None else None
         cur_types = list(ctypes)
+        cur_raw = list(raw_keys) if raw_keys is not None else None     # sparse: the raw keys behind the current header names
         for si in range(n):
             if not cur_types:
                 break
@@ -1160,6 +1163,7 @@ class C13(Property):
                     else:
                         pairs = [[new[j], keys[j]] for j in range(k)]
                         stages.append({"op": "head", "map": rng.shuffle(pairs)})
+                    cur_raw = list(keys)
                 cur_names = new
             elif op == "encode":
                 encs = [enc_for(rng, t) for t in cur_types]
@@ -1212,6 +1216,8 @@ class C13(Property):
                     key = cur_names[j] if (cur_names is not None and (kind == "sparse" or rng.chance(0.5))) else j
                     pred = {"p": "eq", "k": key, "v": self.sample_value(rng, cur_types[j])}
                 stages.append({"op": "drop", "cols": rng.shuffle(cols), "pred": pred})
+                if cur_raw is not None:
+                    cur_raw = [x for j, x in enumerate(cur_raw) if j not in dropped]
                 if cur_names is not None:
                     cur_names = [x for j, x in enumerate(cur_names) if j not in dropped]
                 cur_types = [x for j, x in enumerate(cur_types) if j not in dropped]
@@ -1221,6 +1227,8 @@ class C13(Property):
                     key = cur_names[j] if (cur_names is not None and rng.chance(0.5)) else j
                 else:
                     key = cur_names[j] if not rng.chance(0.1) else "lbl"
+                    if cur_raw is not None and isinstance(cur_raw[j], int) and rng.chance(0.25):
+                        key = cur_raw[j]        # LabelRows(int) on a header-mapped sparse table
                 stages.append({"op": "label", "k": key, "t": rng.choice(["c", "r", None])})
                 labeled = True
             elif op == "enccat":
@@ -1228,6 +1236,7 @@ class C13(Property):
                 stages.append({"op": "enccat", "t": t})
                 if t is not None and any(x.startswith("cat") for x in cur_types):
                     catted = True
+                    cur_raw = None
                     if kind == "dense":
                         cur_names = None
                         if t == "onehot":
@@ -1283,7 +1292,8 @@ class C13(Property):
         base, rows, names, ctypes, _ = self.gen_table(rng, kind, tier)
         ncols = len(ctypes)
         lazy_has_missing = base["wrap"] in ("lazy", "arff")
-        stages = self.gen_stages(rng, kind, names, ctypes, ncols, wf, lazy_has_missing)
+        raw_keys = list(range(ncols)) if (kind == "sparse" and (base["wrap"] == "arff" or base.get("hdr") is not None)) else None
+        stages = self.gen_stages(rng, kind, names, ctypes, ncols, wf, lazy_has_missing, raw_keys)
         if kind == "sparse" and any(st["op"] == "enccat" and st.get("t") for st in stages):
             # EncodeCatRows takes the categorical keys from the first dict and then indexes every dict with them
             # (a limitation on plain dicts too): give all rows the key set of the observed table's first row
@@ -1381,6 +1391,10 @@ class C13(Property):
                      [[[0, "1"]], [[1, "q"], [2, "x"]]], [{"op": "drop", "cols": ["a"], "pred": {"p": "missing"}}], full_s, 1))
         cs.append(mk("sparse", plain, [[["a", {"cat": "q", "lv": ["p", "q"]}], ["b", 2]]], [{"op": "enccat", "t": "onehot"}], full_s + [{"a": "name", "k": "a_1"}]))
         cs.append(mk("sparse", {"wrap": "lazy", "loader": False}, [[["a", {"cat": "q", "lv": ["p", "q"]}], ["b", 2]]], [{"op": "enccat", "t": "string"}], full_s))
+        # LabelRows(int) on header-mapped sparse rows: the label is translated to its header name
+        cs.append(mk("sparse", {"wrap": "arff", "cols": [{"name": "a", "t": "num"}, {"name": "b", "t": "cat", "lv": ["p", "q"]}, {"name": "c", "t": "str"}]},
+                     [[[0, "1"], [2, "x"]], [[1, "q"]]], [{"op": "label", "k": 1, "t": "c"}], full_s + lab_s))
+        cs.append(mk("sparse", plain, [[[0, "1"], [1, "2"]]], [{"op": "head", "names": ["a", "b", "c"]}, {"op": "drop", "cols": ["a"], "pred": None}, {"op": "label", "k": 2, "t": "r"}], full_s + lab_s))
         # recorded C13-F5: an absent key read through two EncodeSparse wrappers
         cs.append(mk("sparse", plain, [[]], [{"op": "encode", "map": []}, {"op": "encode", "seq": ["str", "str"]}], [{"a": "name", "k": 1}, {"a": "items"}, {"a": "len"}]))
         cs.append(mk("sparse", plain, [[["a", "1"]]], [{"op": "encode", "map": [["a", "int"]]}, {"op": "label", "k": "y", "t": "r"}], [{"a": "label"}, {"a": "items"}, {"a": "name", "k": "y"}]))
